@@ -368,7 +368,7 @@ class Moment:
         )
 
     def __copy__(self):
-        return type(self)(self.operations)
+        return type(self)(self.operations, tags=self._tags)
 
     def __bool__(self) -> bool:
         return bool(self.operations)
@@ -554,7 +554,7 @@ class Moment:
 
     @classmethod
     def _from_json_dict_(cls, operations, tags=(), **kwargs):
-        return cls(*operations, tags=tags)
+        return cls(*operations, tags=tuple(tags))
 
     def __add__(self, other: cirq.OP_TREE) -> cirq.Moment:
         if isinstance(other, circuit.AbstractCircuit):
